@@ -28,8 +28,27 @@ def renderResp (ev : String → Extracted.Expr.Outcome) (tpl : String) (collect 
       | .ok r => Json.str (defaultLogLine r.msg "<tp>" "<ctx>")
       | .error _ => Json.null)]
 
+def resJson (r : Nat × ResKind) : Json :=
+  Json.arr #[toJson r.1, Json.str (match r.2 with | .logMsg => "log" | .push => "push")]
+
+def handleResults (j : Json) : Except String Json := do
+  let tps ← (← getArr j "tps").toList.mapM (fun t => do
+    match (← t.getStr?) with
+    | "snap" => pure TpKind.snap
+    | "log" => pure TpKind.log
+    | "snaplog" => pure TpKind.snapLog
+    | k => throw s!"unknown tracepoint kind {k}")
+  let fl ← (← getArr j "fails").toList.mapM (fun f => do
+    let a ← f.getArr?
+    let i ← (a[0]!).getNat?
+    let k ← (a[1]!).getStr?
+    pure (i, if k == "log" then ResKind.logMsg else ResKind.push))
+  let fails : Nat × ResKind → Bool := fun r => fl.contains r
+  pure (Json.mkObj [("delivered", Json.arr ((delivered tps fails).map resJson).toArray)])
+
 def handle (j : Json) : Except String Json := do
   let op ← getStr j "op"
+  if op == "results" then return (← handleResults j)
   let tpl ← getStr j "tpl"
   match op with
   | "parse" =>
